@@ -92,6 +92,10 @@ def check_rules(case):
     """case: {"preset":..., "tree": model case, "cats": {path: bare category}} - bare categories are stored in the
     model nodes under key 'cat' by the generator."""
     preset = case["preset"]
+    if case.get("warm", True):
+        # history: the same tree is first marked with the other preset (fresh copy); results must not leak
+        other = "ptb" if preset == "negra" else "negra"
+        call("C15/mark_heads_by_rules", transform.mark_heads_by_rules, M.build(case["tree"], T), mark_heads_preset=other)
     tree = M.build(case["tree"], T)
     result = call("C15/mark_heads_by_rules", transform.mark_heads_by_rules, tree, mark_heads_preset=preset)
 
